@@ -15,6 +15,34 @@ type Config struct {
 	K        int // disjunct cap
 	MaxDepth int // callee expansion depth
 	RetCap   int // disjuncts kept per expanded call
+	// Lemmas: module functions (full name) that are modelled by a lemma instead of being expanded; the
+	// caller is responsible for checking the lemma against the function's code (see leb128LenLemma)
+	Lemmas map[string]string
+	// Modular: module functions (full name) that are analysed once as entries of their own under a
+	// precondition instead of being expanded at every call: at a call the precondition is an obligation
+	// (kind PRE) on the caller's path condition and the result is unconstrained; AnalyzeEntry of the
+	// function itself starts from the precondition.
+	Modular map[string]*ModSpec
+	// LoopEntryCap > 0 reduces the entry state of every loop to that many path conditions
+	LoopEntryCap int
+}
+
+// ModSpec is the precondition of a modularly analysed function, over its parameters (receiver first).
+type ModSpec struct {
+	Text string
+	Pre  func(d *Disjunct, args []ssa.Value) []lin.Ineq
+	// Post (optional, functions with one integer result): facts about the result res that hold at every
+	// return — `common`, and for each alternative its conclusion whenever its guard holds. The function's
+	// own entry analysis proves them at every return (obligation kind CTR "post"); a call assumes
+	// common and splits the path over the alternatives (guard and conclusion), whose guards must cover
+	// every result (checked: common together with the negation of all guards must be infeasible).
+	PostText string
+	Post     func(d *Disjunct, args []ssa.Value, res *lin.Lin) (common []lin.Ineq, alts []PostAlt)
+}
+
+// PostAlt is one guarded conclusion of a postcondition.
+type PostAlt struct {
+	Guard, Concl []lin.Ineq
 }
 
 // Engine analyses entry functions and accumulates aggregated obligations.
@@ -28,6 +56,9 @@ func New(prog *core.Program, cfg Config, hooks *Hooks) *Engine {
 	if cfg.RetCap > 0 {
 		it.retCap = cfg.RetCap
 	}
+	it.lemmas = cfg.Lemmas
+	it.modular = cfg.Modular
+	it.loopEntryCap = cfg.LoopEntryCap
 	return &Engine{it: it}
 }
 
@@ -44,6 +75,15 @@ func (e *Engine) AnalyzeEntry(fn *ssa.Function) {
 	it.finfo[f].depth = 0
 	it.record = true
 	d := newDisjunct()
+	if ms := it.modular[funcFullName(fn)]; ms != nil {
+		var params []ssa.Value
+		for _, pa := range fn.Params {
+			params = append(params, pa)
+		}
+		for _, q := range ms.Pre(&Disjunct{d: d, it: it, f: f}, params) {
+			d.addFact(q)
+		}
+	}
 	s := &state{ds: []*disjunct{d}}
 	it.retStack = append(it.retStack, nil)
 	it.runRegion(f, fn, nil, fn.Blocks[0], s)
@@ -56,6 +96,9 @@ func (e *Engine) AnalyzeEntry(fn *ssa.Function) {
 		}
 	}
 }
+
+// LemmasUsed names the lemmas that replaced a call expansion in this analysis.
+func (e *Engine) LemmasUsed() map[string]bool { return e.it.lemmasUsed }
 
 func (e *Engine) Obligations() []*Oblig         { return e.it.sortedObligs() }
 func (e *Engine) Funcs() map[*ssa.Function]bool { return e.it.funcs }
@@ -221,4 +264,13 @@ func (d *Disjunct) EntryMemInt(p ssa.Value, path string) *lin.Lin {
 		return c.val.lin
 	}
 	return nil
+}
+
+func funcFullName(fn *ssa.Function) string {
+	if o := fn.Object(); o != nil {
+		if fo, ok := o.(*types.Func); ok {
+			return fo.FullName()
+		}
+	}
+	return fn.String()
 }
